@@ -145,11 +145,18 @@ func c09Tick(e *Env) {
 				}
 			})
 			ok = allFound && nWays > 0
+			loops := ir.Loops(run)
+			l := ir.InnermostLoop(loops, site.Block())
+			// the due test applied beforehand: the loop ranges over what a helper of the
+			// package cut out of the entries - the prefix before the first entry that is not due
+			prefixCut := false
+			if !ok && l != nil && l.Ranged != nil {
+				prefixCut = c09DuePrefix(e, l.Ranged, isNowD)
+				ok = prefixCut
+			}
 			r.Check(ok, "run: an entry is invoked only when !entry.Next.After(tick)", e.InstrPos(site),
 				"entries are invoked although their next time is after the tick (future minutes run early), or the guard uses another comparison", e.FactsStr("dominating conditions: ", lits))
 			// break on the first future entry needs the entries sorted by Next
-			loops := ir.Loops(run)
-			l := ir.InnermostLoop(loops, site.Block())
 			if l != nil {
 				// every due entry is invoked: besides the due test and the loop's own
 				// bound, the launch depends on nothing that varies from entry to entry
@@ -274,7 +281,7 @@ func c09Tick(e *Env) {
 						}
 					}
 				}
-				if breaks {
+				if breaks || prefixCut {
 					sorted := false
 					var sorts []ssa.CallInstruction
 					for _, h := range e.withPkgHelpers(run) {
@@ -574,6 +581,32 @@ func c09EntryTable(e *Env) {
 				if _, has := ents[ConstVal(et, name)]; !has {
 					r.Bad("Invoke: Job."+wantM[name]+" only for "+name, e.InstrPos(c), "the operation table has no entry for "+name)
 				}
+			}
+		}
+	}
+	// the operation chosen by a helper of the package as a method value (`op := e.operation(); op()`
+	// with `return e.Job.Start` under the entry type): the place the method value is made
+	for _, g := range e.withPkgHelpers(inv) {
+		for _, b := range g.Blocks {
+			for _, in := range b.Instrs {
+				mc, ok := in.(*ssa.MakeClosure)
+				if !ok {
+					continue
+				}
+				w, isF := mc.Fn.(*ssa.Function)
+				if !isF || !strings.HasSuffix(w.Name(), "$bound") {
+					continue
+				}
+				m := ""
+				for _, ci := range ir.CallsIn(w, func(c *ssa.CallCommon) bool { return c.IsInvoke() && wantM["entryType"+c.Method.Name()] != "" }) {
+					m = ci.Common().Method.Name()
+				}
+				if m == "" {
+					continue
+				}
+				set := e.restrictWays(e.DCS(mc), isType, et)
+				ok2 := len(set) == 1 && set[ConstVal(et, "entryType"+m)]
+				r.Check(ok2, "Invoke: Job."+m+" only for entryType"+m, e.InstrPos(mc), "job method "+m+" is chosen for entry kinds {"+strings.Join(set.Names(et), ",")+"}")
 			}
 		}
 	}
@@ -955,4 +988,156 @@ func isLoopCounter(v ssa.Value, l *ir.Loop) bool {
 		return false
 	}
 	return false
+}
+
+// c09DuePrefix: v is the result of a package helper F(entries, tick) every return of which
+// is either `entries[:n]` with n = slices.IndexFunc(entries, notDue) found (n >= 0), or all
+// of `entries` when nothing was found (n < 0), notDue being the negated due test against
+// the helper's tick parameter. IndexFunc answers the FIRST index satisfying the predicate,
+// so every element before it is due.
+func c09DuePrefix(e *Env, v ssa.Value, isTick func(ssa.Value) bool) bool {
+	call, ok := ir.Resolve(v).(*ssa.Call)
+	if !ok || call.Call.StaticCallee() == nil || !e.P.Funcs[call.Call.StaticCallee()] {
+		return false
+	}
+	h := call.Call.StaticCallee()
+	// the helper's parameters as seen from the tick body
+	undo := func() {}
+	{
+		bind := map[ssa.Value]ssa.Value{}
+		for i, p := range h.Params {
+			if i < len(call.Call.Args) {
+				bind[p] = call.Call.Args[i]
+			}
+		}
+		undo = ir.SetOverride(bind)
+	}
+	defer undo()
+	var entriesParam *ssa.Parameter
+	for _, p := range h.Params {
+		if _, isSl := p.Type().Underlying().(*types.Slice); isSl {
+			entriesParam = p
+		}
+	}
+	if entriesParam == nil {
+		return false
+	}
+	// n := slices.IndexFunc(entries, pred)
+	var idx *ssa.Call
+	for _, ci := range ir.CallsIn(h, func(c *ssa.CallCommon) bool { return strings.HasPrefix(ir.CalleeName(c), "slices.IndexFunc") }) {
+		if c, isC := ci.(*ssa.Call); isC && ir.Resolve(c.Call.Args[0]) == ssa.Value(entriesParam) {
+			idx = c
+		}
+	}
+	if idx == nil {
+		return false
+	}
+	pred := funcOfValue(idx.Call.Args[1])
+	if pred == nil {
+		return false
+	}
+	// pred(e) true  <=>  e is not due: every way it answers true has Next.After(tick) (or !due)
+	alts, okA := e.boolHelperReturns(pred, true)
+	if !okA || len(alts) == 0 {
+		return false
+	}
+	// the tick inside the predicate: a free variable bound to the helper's time parameter
+	isTickIn := func(x ssa.Value) bool {
+		x = ir.Resolve(x)
+		if fv, isFV := x.(*ssa.FreeVar); isFV {
+			if mc, isMC := ir.Resolve(idx.Call.Args[1]).(*ssa.MakeClosure); isMC {
+				for i, f := range pred.FreeVars {
+					if f == fv && i < len(mc.Bindings) {
+						x = ir.Resolve(mc.Bindings[i])
+					}
+				}
+			}
+		}
+		if u, isU := x.(*ssa.UnOp); isU && u.Op == token.MUL {
+			if al, isA := u.X.(*ssa.Alloc); isA {
+				if st := ir.StoresTo(al); len(st) == 1 {
+					x = ir.Resolve(st[0])
+				}
+			}
+			if fv, isFV := u.X.(*ssa.FreeVar); isFV {
+				if mc, isMC := ir.Resolve(idx.Call.Args[1]).(*ssa.MakeClosure); isMC {
+					for i, f := range pred.FreeVars {
+						if f == fv && i < len(mc.Bindings) {
+							if al, isA := mc.Bindings[i].(*ssa.Alloc); isA {
+								if st := ir.StoresTo(al); len(st) == 1 {
+									x = ir.Resolve(st[0])
+								}
+							}
+						}
+					}
+				}
+			}
+		}
+		return isTick(x) || isTick(ir.Deep(x))
+	}
+	for _, alt := range alts {
+		good := false
+		e.ways(alt, func(lits []ir.NLit) {
+			for _, l := range lits {
+				if l.Kind != "val" {
+					continue
+				}
+				c, isC := ir.Resolve(l.V).(*ssa.Call)
+				if !isC {
+					continue
+				}
+				if l.Pol && ir.IsCallTo(&c.Call, "(time.Time).After") && e.IsFieldRead(c.Call.Args[0], nil, "Next") && isTickIn(c.Call.Args[1]) {
+					good = true
+				}
+				if l.Pol && ir.IsCallTo(&c.Call, "(time.Time).Before") && isTickIn(c.Call.Args[0]) && e.IsFieldRead(c.Call.Args[1], nil, "Next") {
+					good = true
+				}
+			}
+		})
+		if !good {
+			return false
+		}
+	}
+	// the returns
+	n := 0
+	for _, b := range h.Blocks {
+		rt, isR := b.Instrs[len(b.Instrs)-1].(*ssa.Return)
+		if !isR || len(rt.Results) != 1 || !e.Facts(h).Reachable(b) {
+			continue
+		}
+		n++
+		rv := ir.Resolve(rt.Results[0])
+		lits := e.DCS(rt)
+		switch x := rv.(type) {
+		case *ssa.Slice:
+			// entries[:n] under 0 <= n
+			if ir.Resolve(x.X) != ssa.Value(entriesParam) || x.Low != nil || x.High == nil || ir.Resolve(x.High) != ssa.Value(idx) {
+				return false
+			}
+		case *ssa.Parameter:
+			if x != entriesParam {
+				return false
+			}
+			// all of them: only when nothing is not due (n < 0)
+			neg := false
+			for _, l := range lits {
+				if l.Kind == "cmp" && l.Op == token.LSS && ir.Resolve(l.X) == ssa.Value(idx) {
+					if k, isK := ir.ConstInt(l.Y); isK && k == 0 {
+						neg = true
+					}
+				}
+				if l.Kind == "cmp" && l.Op == token.EQL && ir.Resolve(l.X) == ssa.Value(idx) {
+					if k, isK := ir.ConstInt(l.Y); isK && k == -1 {
+						neg = true
+					}
+				}
+			}
+			if !neg {
+				return false
+			}
+		default:
+			return false
+		}
+	}
+	return n > 0
 }
